@@ -2,6 +2,7 @@
 
 #include <algorithm>
 #include <cmath>
+#include <limits>
 #include <sstream>
 #include <sys/stat.h>	 //required to create a folder
 #include <sys/types.h>	 // required for stat.h
@@ -143,7 +144,7 @@ std::vector<double> Import_List(std::string filepath, double dimension, unsigned
 	if(inputfile.good())
 	{
 		for(unsigned int i = 0; i < ignored_initial_lines; i++)
-			inputfile.ignore(10000, '\n');
+			inputfile.ignore(std::numeric_limits<std::streamsize>::max(), '\n');
 		double x;
 		while(inputfile >> x)
 			data.push_back(x * dimension);
@@ -180,7 +181,7 @@ std::vector<std::vector<double>> Import_Table(std::string filepath, std::vector<
 	if(inputfile.good())
 	{
 		for(unsigned int i = 0; i < ignored_initial_lines; i++)
-			inputfile.ignore(10000, '\n');
+			inputfile.ignore(std::numeric_limits<std::streamsize>::max(), '\n');
 		double x;
 		while(inputfile >> x)
 			data_aux.push_back(x);
@@ -202,7 +203,7 @@ std::vector<std::vector<double>> Import_Table(std::string filepath, std::vector<
 		// Every line has to hold exactly one row of the table.
 		std::ifstream linefile(filepath);
 		for(unsigned int i = 0; i < ignored_initial_lines; i++)
-			linefile.ignore(10000, '\n');
+			linefile.ignore(std::numeric_limits<std::streamsize>::max(), '\n');
 		std::string line;
 		while(std::getline(linefile, line))
 		{
